@@ -4,14 +4,19 @@ import Driver.C01
 namespace Driver.C11
 open AcraModel AcraModel.Envelope Driver.C01
 
+/-- the configuration loader accepts exactly `left` and `right` (`ValidateMaskingParams`) -/
+def validSide (side : String) : Bool := side == "left" || side == "right"
+
 def parseCfg (k pattern len side : String) : Option MaskCfg := do
   pure { pattern := ← ofHex pattern, k := ← len.toNat?, left := side == "left", kind := ← parseKind k }
 
 def handle (op : String) (args : List String) : Option String :=
   match op, args with
   | "write", [k, pattern, len, side, pub, privs, sym, syms, d, rnd] => do
+      if !validSide side then pure "badcfg" else
       pure (outHex (maskWrite C (← parseKV pub privs sym syms) (← parseCfg k pattern len side) (← ofHex d) (← ofHex rnd)))
   | "read", [k, pattern, len, side, pub, privs, sym, syms, d] => do
+      if !validSide side then pure "badcfg" else
       pure (scanStr (maskRead C (← parseKV pub privs sym syms) (← parseCfg k pattern len side) (← ofHex d)))
   | _, _ => none
 
